@@ -726,7 +726,11 @@ def run_line(state, sx, conv=lambda b: b):
             return 'ok N'
         u = df_unslice(f, ub)
         g = df_slice(list(u.values()), ub=ub, n=n)
-        ud = '(L' + ''.join(' (T %s %s)' % (_time(k), enc_result(v)) for k, v in u.items()) + ')'
+        # the keys of df_unslice are the bounds AS GIVEN (a yyyymmdd int, a string, a date ..): they are compared as the dates they spell
+        # (pd.Timestamp(20200203) would read the int as nanoseconds: a false alarm of the thorough tier on the unchanged tree)
+        from pyg_base import dt as _dt
+        _key = lambda k: _time(k) if k is None or isinstance(k, (datetime.datetime, pd.Timestamp, np.datetime64)) else _time(_dt(k))
+        ud = '(L' + ''.join(' (T %s %s)' % (_key(k), enc_result(v)) for k, v in u.items()) + ')'
         return 'ok (T %s %s %s)' % (enc_frame(f), ud, enc_frame(g))
     return 'bad-op'
 
